@@ -91,6 +91,9 @@ type Case struct {
 	Procs         int     `json:"procs,omitempty"` // plugin instances sharing the pipeline name, as the processors of one pipeline do (0 = 1)
 	Steps         []Step  `json:"steps"`
 	MetaKey       *string `json:"meta_key,omitempty"` // second run without the events of this throttle key
+	// FormatSpelling: how the time_field_format name is written in the config - format names are accepted in
+	// any letter case and with surrounding blanks (0 as is, 1 upper case, 2 mixed case, 3 padded)
+	FormatSpelling int `json:"format_spelling,omitempty"`
 	// ExpirationS > 0: limiter_expiration in seconds ("unused limiters are removed"); 0 = practically never.
 	// A limiter whose key keeps arriving with gaps shorter than the expiration must keep its counts; once a
 	// key has been silent for about the expiration the oracle stops judging it (it may or may not be gone).
@@ -175,6 +178,9 @@ func gen(t *rapid.T) Case {
 	c.TimeFormat = rapid.SampledFrom([]string{"rfc3339nano", "rfc3339nano", "rfc3339nano", "unixtimemilli", "unixtimefloat"}).Draw(t, "time_format")
 	c.BucketsCount = rapid.SampledFrom([]int{1, 2, 2, 3, 3, 4, 5, 8, 1, 2, 3, 4, 16, 60}).Draw(t, "buckets_count")
 	c.IntervalMs = rapid.SampledFrom([]int64{100, 100, 1000, 1000, 1000, 1000, 1500, 1500, 7000, 7000, 60000, 60000, 3600000}).Draw(t, "interval_ms")
+	if rapid.IntRange(0, 3).Draw(t, "format_spelling") == 0 {
+		c.FormatSpelling = rapid.IntRange(1, 3).Draw(t, "format_spelling_how")
+	}
 	if c.BucketsCount > 8 && c.IntervalMs > 7000 {
 		c.IntervalMs = 1000 // keeps the virtual duration (1 s maintenance ticks) of a window crossing small
 	}
@@ -407,11 +413,23 @@ func distJSON(d *Dist) map[string]any {
 	return map[string]any{"field": d.Field, "ratios": rs}
 }
 
+func spellFormat(name string, how int) string {
+	switch how {
+	case 1:
+		return strings.ToUpper(name)
+	case 2:
+		return strings.Replace(strings.Replace(name, "unixtime", "UnixTime", 1), "milli", "Milli", 1)
+	case 3:
+		return " " + name + " "
+	}
+	return name
+}
+
 func configJSON(c Case) []byte {
 	m := map[string]any{
 		"throttle_field":     c.ThrottleField,
 		"time_field":         c.TimeField,
-		"time_field_format":  map[bool]string{true: "unixtime", false: c.TimeFormat}[c.TimeFormat == "unixtimefloat"],
+		"time_field_format":  spellFormat(map[bool]string{true: "unixtime", false: c.TimeFormat}[c.TimeFormat == "unixtimefloat"], c.FormatSpelling),
 		"default_limit":      c.DefaultLimit,
 		"limit_kind":         c.DefaultKind,
 		"limiter_backend":    "memory",
@@ -716,11 +734,12 @@ func floorDiv(a, b int64) int64 {
 }
 
 type evalInfo struct {
-	keptAlive       bool // a limiter was in use (gaps below the expiration) for longer than limiter_expiration
-	possiblyExpired bool // a key was silent for about limiter_expiration: not judged from there on
-	exceeded        bool // some event arrived when its bucket was already full
-	oldSlot         bool // an event was booked into a non-newest bucket of the window
-	remapped        bool // an out-of-window time was booked into the newest bucket
+	unjudged        map[int]bool // steps whose limiter may or may not have been evicted (limiter_expiration): not determined
+	keptAlive       bool         // a limiter was in use (gaps below the expiration) for longer than limiter_expiration
+	possiblyExpired bool         // a key was silent for about limiter_expiration: not judged from there on
+	exceeded        bool         // some event arrived when its bucket was already full
+	oldSlot         bool         // an event was booked into a non-newest bucket of the window
+	remapped        bool         // an out-of-window time was booked into the newest bucket
 	// observation, not asserted: with a distribution the bucket's passes exceeded the plain limit because every
 	// share is rounded on its own (e.g. limit 1, ratios 0.5/0.5 -> shares 1+1); the property only bounds the
 	// total by the sum of the shares and the README does not say how shares are rounded
@@ -781,6 +800,10 @@ func judge(o *vkit.Outcome, c Case, steps []Step, res *execResult, info *evalInf
 				info.possiblyExpired = true
 			}
 			if possiblyGone[lk] {
+				if info.unjudged == nil {
+					info.unjudged = map[int]bool{}
+				}
+				info.unjudged[i] = true
 				continue
 			}
 			if res.nowMs[i]-firstUse[lk] > int64(c.ExpirationS+1)*1000 {
@@ -999,6 +1022,9 @@ func run(c Case) *vkit.Outcome {
 				o.Failf(P, "harness:second-run-differs", "second run: rejected=%q skew=%v", res2.rejected, res2.clockSkew)
 			default:
 				for j, i := range idx {
+					if info.unjudged[i] {
+						continue // whether this key's limiter was evicted in between is a matter of timing (see ExpirationS)
+					}
 					if res2.decisions[j] != res.decisions[i] {
 						o.Failf(P, "independence:decision-changed-when-other-key-removed", "step %d (key %q, event %s) was %s with the events of key %q present and %s without them\nconfig: %s",
 							i, c.Steps[i].Fields[c.ThrottleField], eventJSON(c, c.Steps[i], res.startMs), verdict(res.decisions[i]), *c.MetaKey, verdict(res2.decisions[j]), configJSON(c))
